@@ -63,13 +63,28 @@ Theorem accept_log_form : forall u a, 0 < u -> (u < Rmin 1 (exp a) <-> ln u < Rm
 Proof. exact accept_ln_form. Qed.
 Print Assumptions accept_log_form.
 
-(* 3. A rejected move restores the state: identical parameter values and carried density.  (In the
-   model this is equality of lists of reals; bit-identity of every parameter of the implementation,
-   including parameters reached through views and transforms, is checked on the recorded runs.) *)
-Theorem reject_restores : forall r : rec R,
-  rec_restore_ok r -> r_acc r = false -> r_after r = r_before r /\ r_lj_after r = r_lj_before r.
-Proof. exact restore_unfolded. Qed.
+(* 3. A rejected move restores the state: identical parameter values and carried density — in every
+   run, for ANY decision function and ANY oracles (no hypothesis).  Accepted moves install the
+   proposal and its density.  (In the model this is equality of lists of reals; bit-identity of
+   every parameter of the implementation, including parameters reached through views and
+   transforms, is checked on the recorded runs.) *)
+Theorem reject_restores : forall (dec : R -> R -> bool) (cfgs : list (opcfg R)) (ds : list (draws R))
+                                 (st : chain R),
+  List.Forall (fun r => (r_acc r = false -> r_after r = r_before r /\ r_lj_after r = r_lj_before r) /\
+                        (r_acc r = true -> r_after r = r_prop r /\ r_dens r = Fin (r_lj_after r)))
+              (snd (run NumR dec cfgs st ds)).
+Proof. exact run_restores. Qed.
 Print Assumptions reject_restores.
+
+(* every logger row is self-consistent: the logged parameter values are the state after the move
+   and the logged density is the target at them (= the carried density) *)
+Theorem logged_row_consistent :
+  forall (pi : list R -> ext R) (cfgs : list (opcfg R)) (ds : list (draws R)) (st : chain R),
+  pi (c_x st) = Fin (c_lj st) -> List.Forall (faithful pi) ds ->
+  List.Forall (fun r => r_logx r = r_after r /\ r_logp r = pi (r_logx r) /\ r_logp r = Fin (r_lj_after r))
+              (snd (run NumR Rltb cfgs st ds)).
+Proof. exact run_logged. Qed.
+Print Assumptions logged_row_consistent.
 
 (* consecutive iterations are chained: nothing changes the state between two iterations *)
 Theorem trace_chained : forall dec cfgs ds st,
